@@ -11,6 +11,7 @@ by classes and hierarchy positions -- there is no integer to make symbolic.  The
 (corpus/illegal_designs.py): every table entry, in several statement orders, is elaborated by the real code and the outcome
 compared with the hand-written expectation (direct comparison, no solver).
 """
+import os
 import sys
 import z3
 
@@ -109,6 +110,7 @@ def item(it):
 
 REPLAY_RULE = '''
 sys.path.insert(0, '/verif')
+import os; os.environ['VERIF_ORDERS'] = %(nord)r
 from corpus import illegal_designs as ID
 i, expected = %(i)d, %(exp)r
 fam, name, oi, cn, exp, mid = ID.index()[i]
@@ -136,7 +138,7 @@ def item_rules(it):
     else:
       res['violations'].append(dict(key=f"rule:{fam}:{name}:{'accepted' if got is None else got}",
                                     what=f"{fam} / {name} (order {oi}): elaboration {'raised ' + got if got else 'succeeded'}, the rules demand {exp or 'a legal design'}",
-                                    replay=REPLAY_RULE % dict(i=i, exp=exp)))
+                                    replay=REPLAY_RULE % dict(i=i, exp=exp, nord=os.environ.get('VERIF_ORDERS', '6'))))
   res['transitions'] = res['states']
   res['twins_expected'] = 0
   res['samples'].append(f"{res['name']}: {res['obligations']} designs (cases x statement orders)")
@@ -150,6 +152,7 @@ def dispatch(it):
 def main():
   tier = sys.argv[1] if len(sys.argv) > 1 else 'quick'
   chk = Check('C09', tier)
+  if tier == 'thorough': os.environ['VERIF_ORDERS'] = '24'
   items = []
   for n in ([8, 64] if tier == 'quick' else [8, 64, 1023]):
     for case in ('W2', 'W2R', 'WN', 'WW'):
